@@ -164,6 +164,8 @@ func genRecs(t *rapid.T, depth int) []wirex.Rec {
 	return recs
 }
 
+var kindNamePtr = func() []string { return append([]string(nil), kindName[:]...) }()
+
 var byWT = map[int][]int{
 	wirex.Varint:  {kBool, kUInt32, kUInt64, kInt32, kInt64, kSInt32, kSInt64, kSkip},
 	wirex.Fixed64: {kFixed64, kFloat64, kSkip},
@@ -245,10 +247,12 @@ func (r *run) exec(c call) {
 	old := r.dA.Offset()
 	modeBefore := r.dA.Mode()
 	w.Step("@%d %v", old, c)
+	w.WatchBegin(&kindNamePtr[c.kind])
 	a0 := heapAllocs()
 	oa := do(r.dA, c)
 	alloc := heapAllocs() - a0
 	ob := do(r.dB, c)
+	w.WatchEnd()
 	name := kindName[c.kind]
 	if oa.panicked != nil {
 		w.Violate(rep.PanicSig(name, oa.panicked, oa.stack), fmt.Sprintf("%v at offset %d of %d-byte input, call %v", oa.panicked, old, n, c))
